@@ -60,6 +60,31 @@ fn sp(p: (usize, usize)) -> String {
     format!("[{},{}]", p.0, p.1)
 }
 
+fn const_record(src: &Src, c: &syn::ItemConst) -> String {
+    let mut elems = vec![];
+    let mut all_str = false;
+    if let syn::Expr::Array(a) = &*c.expr {
+        all_str = true;
+        for e in a.elems.iter() {
+            if let syn::Expr::Lit(l) = e {
+                if let syn::Lit::Str(st) = &l.lit {
+                    elems.push(format!("{{\"value\":{},\"span\":{}}}", js(&st.value()), sp(src.span(st.span()))));
+                    continue;
+                }
+            }
+            all_str = false;
+        }
+    }
+    format!(
+        "{{\"name\":{},\"span\":{},\"ty\":{},\"str_array\":{},\"elems\":[{}]}}",
+        js(&c.ident.to_string()),
+        sp(src.span(c.span())),
+        sp(src.span(c.ty.span())),
+        all_str,
+        elems.join(",")
+    )
+}
+
 fn attrs_info(attrs: &[syn::Attribute]) -> (bool, bool, Vec<String>) {
     let mut cfg_test = false;
     let mut macro_export = false;
@@ -130,6 +155,7 @@ struct BodyV<'a> {
     strlits: Vec<String>,
     nested_fns: u32,
     call_of: std::collections::HashMap<usize, (usize, usize)>,
+    consts: Vec<String>,
 }
 impl<'a, 'ast> Visit<'ast> for BodyV<'a> {
     fn visit_item_fn(&mut self, _i: &'ast syn::ItemFn) {
@@ -173,6 +199,9 @@ impl<'a, 'ast> Visit<'ast> for BodyV<'a> {
             e.label.is_some()
         ));
         visit::visit_expr_for_loop(self, e);
+    }
+    fn visit_item_const(&mut self, c: &'ast syn::ItemConst) {
+        self.consts.push(const_record(self.src, c));
     }
     fn visit_expr_method_call(&mut self, e: &'ast syn::ExprMethodCall) {
         let cs = self.src.span(e.span());
@@ -350,6 +379,7 @@ impl<'a> Ctx<'a> {
             strlits: vec![],
             nested_fns: 0,
             call_of: Default::default(),
+            consts: vec![],
         };
         let body = match block {
             Some(b) => {
@@ -366,7 +396,7 @@ impl<'a> Ctx<'a> {
         };
         let sig_span = self.src.span(sig.span());
         let rec = format!(
-            "{{\"rec\":\"fn\",\"mods\":{},\"qual\":{},\"name\":{},\"path\":{},\"cfg_test\":{},\"item\":{},\"vis\":{},\"sig\":{},\"ident\":{},\"out_ty\":{},\"where\":{},\"params\":[{}],\"body\":{},\"semi\":{},\"loops\":[{}],\"closures\":[{}],\"arms\":[{}],\"macros\":[{}],\"binders\":[{}],\"strlits\":[{}],\"nested_fns\":{}}}",
+            "{{\"rec\":\"fn\",\"mods\":{},\"qual\":{},\"name\":{},\"path\":{},\"cfg_test\":{},\"item\":{},\"vis\":{},\"sig\":{},\"ident\":{},\"out_ty\":{},\"where\":{},\"params\":[{}],\"body\":{},\"semi\":{},\"loops\":[{}],\"closures\":[{}],\"arms\":[{}],\"macros\":[{}],\"binders\":[{}],\"strlits\":[{}],\"consts\":[{}],\"nested_fns\":{}}}",
             js(&self.mods.join("::")),
             js(&self.qual.join("::")),
             js(&name),
@@ -387,6 +417,7 @@ impl<'a> Ctx<'a> {
             bv.macros.join(","),
             bv.binders.join(","),
             bv.strlits.join(","),
+            bv.consts.join(","),
             bv.nested_fns
         );
         self.out.push(rec);
